@@ -63,6 +63,20 @@ def gen_case(rng, tier, ks=None):
             stream.append(("delete", k, tr))
         else:
             stream.append(("update", k, rng.choice([b"v", b"w" * 40, b"", d, b"\x01"]), tr))
+    if rng.random() < 0.35:
+        # the same write repeated around changes to a NEIGHBOUR: key A (differs from the tracked key at bit i) is written with the
+        # same value several times while key B (inside the sibling subtree the proof takes from A's updates: equal to A up to a
+        # later bit j) really changes in between - every returned hash list must be current
+        i = rng.randrange(ks * 8 - 1)
+        a = bytearray(key)
+        a[i // 8] ^= 0x80 >> (i % 8)
+        j = rng.randrange(i + 1, ks * 8)
+        b = bytearray(a)
+        b[j // 8] ^= 0x80 >> (j % 8)
+        a, b = bytes(a), bytes(b)
+        x = rng.choice([b"x", b"y" * 33])
+        stream += [("update", a, x, None), ("update", b, b"1", None), ("update", a, x, None), ("update", b, b"2" * 40, None),
+                   ("update", a, x, rng.choice([None, i + 1])), ("delete", b, None), ("update", a, x, None)]
     return {"ks": ks, "default": d, "prior": prior, "key": key, "stream": stream}
 
 
